@@ -65,6 +65,11 @@ NATIVE = [
     ("(Vec<u64>, Vec<i16>)", [("vec", "nat64"), ("vec", "int16")], {}, None),
     ("Option<Box<List>>", [("opt", ("ref", "List"))], LIST_DEFS, None),
     ("Vec<()>", [("vec", "null")], {}, None),
+    # fixed-size arrays: the Candid type is the vector; the host type holds exactly N elements (any other length is an error)
+    ("[u8; 4]", [("vec", "nat8")], {}, ("array", {0: 4})),
+    ("[String; 2]", [("vec", "text")], {}, ("array", {0: 2})),
+    ("([u8; 2], Vec<u8>)", [("vec", "nat8"), ("vec", "nat8")], {}, ("array", {0: 2})),
+    ("([i32; 3], Option<[bool; 1]>)", [("vec", "int32"), ("opt", ("vec", "bool"))], {}, ("array", {0: 3})),
 ]
 
 
@@ -135,7 +140,7 @@ def gen_val(rnd, t, env, depth=0):
     if t[0] == "opt":
         return None if rnd.random() < (0.3 if depth < 6 else 1.0) else ("some", gen_val(rnd, t[1], env, depth + 1))
     if t[0] == "vec":
-        return [gen_val(rnd, t[1], env, depth + 1) for _ in range(rnd.choice([0, 1, 2, 3, 5]))]
+        return [gen_val(rnd, t[1], env, depth + 1) for _ in range(rnd.choice([0, 1, 2, 3, 4, 5]))]
     if t[0] == "record":
         return [(i, gen_val(rnd, x, env, depth + 1)) for i, x in t[1]]
     i, x = rnd.choice(t[1])
@@ -227,7 +232,27 @@ def run(pid, build_replay):
             want = coerce_args(vals, tys, exps)
             if want is not FAIL and norm == "map":
                 want = [map_normal_form(want[0])]
+            if want is not FAIL and isinstance(norm, tuple) and norm[0] == "array":
+                if any(len(want[j]) != n for j, n in norm[1].items()):
+                    want = FAIL                                      # host limit: the array holds exactly N elements
+                elif k == 29 and want[1] is not None and len(want[1][1]) != 1:
+                    continue                                         # Option<[bool; 1]> of another length: error or null, not pinned here
             cases.append((f"nt {k} {msg.hex()}", rust, tys, vals, exps, want, env, norm))
+    # hand-made messages in which the bytes a short-reading visitor would leave behind happen to be a well-formed next value
+    # (the repaired defects D11 and D12 decoded these to different values without an error)
+    for k, tys, vals in [
+        (28, [("vec", "nat8"), ("vec", "nat8")], [[1, 2, 2], [7]]),
+        (28, [("vec", "nat8"), ("vec", "nat8")], [[1, 2, 1, 9], []]),
+        (22, [("vec", rec((0, "nat16"), (1, ("opt", "text")), (2, "nat16"))), ("vec", "nat8")], [[[(0, 1), (1, None), (2, 0x0103)]], [0xAA]]),
+        (22, [("vec", rec((0, "nat16"), (1, ("opt", "text")), (2, "nat8"))), ("vec", "nat8")], [[[(0, 1), (1, None), (2, 1)]], [5]]),
+    ]:
+        rust, exps, env, norm = NATIVE[k]
+        msg = Enc(env).message(tys, vals)
+        ENVS["w"], ENVS["e"] = env, env
+        want = coerce_args(vals, tys, exps)
+        if want is not FAIL and isinstance(norm, tuple) and any(len(want[j]) != n for j, n in norm[1].items()):
+            want = FAIL
+        cases.append((f"nt {k} {msg.hex()}", rust, tys, vals, exps, want, env, norm))
     p = subprocess.run([exe], input="\n".join(c[0] for c in cases) + "\n", capture_output=True, text=True, timeout=1800)
     outs = [l.strip() for l in p.stdout.splitlines()]
     if len(outs) != len(cases):
